@@ -21,7 +21,7 @@ def problems(rng: random.Random):
         "hendrix": ({"type": "hendrix", "max_useful_life": 1, "max_order_quantity_a": 3,
                      "max_order_quantity_b": 3, "demand_poisson_mean_a": 1.5, "demand_poisson_mean_b": 1.0}, True),
         "mirjalili": ({"type": "mirjalili", "max_demand": 3, "max_useful_life": 2, "max_order_quantity": 3,
-                       "shelf_life_at_arrival_distribution_c_0": [1.0], "shelf_life_at_arrival_distribution_c_1": [0.4]}, True),
+                       "useful_life_at_arrival_distribution_c_0": [1.0], "useful_life_at_arrival_distribution_c_1": [0.4]}, True),
         "tabular": ({"type": "tabular", "mdp": tab}, False),
         "tab_unichain": ({"type": "tabular", "mdp": uni}, False),
         "tab_ring": ({"type": "tabular", "mdp": ring}, False),
